@@ -3,6 +3,8 @@
 import json, os, shutil, sys
 pid, v, needs, ran, det = sys.argv[1:6]
 src = f"/tmp/seed/{pid}/_seed/{v}"
+if not os.path.exists(src):
+    src = f"/tmp/seed/{pid}r2/_seed/{v}"
 dst = f"/verif/seeded/{pid}-{v}"
 os.makedirs(dst, exist_ok=True)
 for f in ("patch.diff", "demo.py", "notes.md"):
